@@ -178,6 +178,29 @@ func (dm *DMap) loadOrCreateFragment(part *partitions.Partition) (*fragment, err
 	return f, nil
 }
 
+// lockFragment loads (or creates) the fragment of the partition and acquires
+// its write lock. The janitor and Destroy close a fragment and remove it from
+// the partition while holding that lock; a writer that obtained the fragment
+// just before would otherwise write into an orphan and lose the entry, so a
+// closed fragment is dropped and a fresh one is taken. The caller has to Unlock.
+func (dm *DMap) lockFragment(part *partitions.Partition) (*fragment, error) {
+	for {
+		f, err := dm.loadOrCreateFragment(part)
+		if err != nil {
+			return nil, err
+		}
+		f.Lock()
+		select {
+		case <-f.ctx.Done():
+			// closed meanwhile
+			f.Unlock()
+			continue
+		default:
+		}
+		return f, nil
+	}
+}
+
 func (dm *DMap) loadFragment(part *partitions.Partition) (*fragment, error) {
 	f, ok := part.Map().Load(dm.fragmentName)
 	if !ok {
